@@ -164,7 +164,10 @@ def _ensure_numeric_strict(a: Any, b: Any) -> tuple[float, float]:
         # bool is subclass of int; exclude explicitly for policy semantics
         raise ConditionTypeError("condition_type_mismatch")
     if isinstance(a, (int, float)) and isinstance(b, (int, float)):
-        return float(a), float(b)
+        try:
+            return float(a), float(b)
+        except OverflowError as e:  # int too large for a float
+            raise ConditionTypeError("condition_type_mismatch") from e
     raise ConditionTypeError("condition_type_mismatch")
 
 
@@ -188,7 +191,10 @@ def _parse_dt(x: Any, strict: bool | None = None) -> datetime:
     if isinstance(x, datetime):
         return x if x.tzinfo is not None else x.replace(tzinfo=timezone.utc)
     if isinstance(x, (int, float)):
-        return datetime.fromtimestamp(float(x), tz=timezone.utc)
+        try:
+            return datetime.fromtimestamp(float(x), tz=timezone.utc)
+        except (OverflowError, ValueError, OSError) as e:  # NaN/Inf/out-of-range epoch
+            raise ConditionTypeError("condition_type_mismatch") from e
     if isinstance(x, str):
         try:
             dt = datetime.fromisoformat(x.replace("Z", "+00:00"))
